@@ -555,6 +555,7 @@ def general_program(draw, cfg, max_steps=30, extra=(), disable=()):
         elif choice == 'fill' and room >= 2:
             n = d(st.integers(0, min(40, room - 1)))
             earlier = sorted(k for k, v in b.defined.items() if v and not k.startswith(('.', '_')))
+            earlier += [blk['name'] for blk in b.isa.data_blocks] + sorted(b.isa.constants)      # predefined names too
             if earlier and d(st.integers(0, 3)) == 0:
                 # the count names an address label defined earlier (possibly in another zone): known in the first pass
                 lab = ['lab', d(st.sampled_from(earlier))]
